@@ -234,3 +234,291 @@ Proof.
   - assert (c = 45%N) by lia. subst. intros H. apply repr_body_ok_inv in H. destruct H. apply ReprG_neg; auto.
   - intros H; apply repr_body_ok_inv in H; tauto.
 Qed.
+
+(* ================================================================== D. cleanup on the grammar *)
+Definition no_dot (s : str) : bool := forallb (fun c => negb (c =? 46)%N) s.
+
+Lemma no_dot_app a b : no_dot (a ++ b) = no_dot a && no_dot b.
+Proof. apply forallb_app. Qed.
+Lemma all_d_no_dot ds : all_d ds = true -> no_dot ds = true.
+Proof.
+  unfold all_d, no_dot. intros H. rewrite forallb_forall in *. intros c Hc. specialize (H c Hc). apply is_d_range in H. lia.
+Qed.
+Lemma sgn_no_dot neg : no_dot (sgn neg) = true.
+Proof. destruct neg; reflexivity. Qed.
+
+Lemma cleanup_no_dot s : no_dot s = true -> cleanup s = s.
+Proof.
+  induction s as [|c t IH]; intros H; [reflexivity|]. cbn in H. apply andb_true_iff in H. destruct H as [Hc Ht].
+  cbn [cleanup]. destruct (c =? 46)%N; [discriminate|]. rewrite IH by auto. reflexivity.
+Qed.
+Lemma cleanup_app pre t : no_dot pre = true -> cleanup (pre ++ t) = pre ++ cleanup t.
+Proof.
+  induction pre as [|c p IH]; intros H; [reflexivity|]. cbn in H. apply andb_true_iff in H. destruct H as [Hc Hp].
+  cbn [app cleanup]. destruct (c =? 46)%N; [discriminate|]. rewrite IH by auto. reflexivity.
+Qed.
+
+Lemma zeros_to_end_cons c t :
+  zeros_to_end (c :: t) =
+  if (c =? 48)%N then zeros_to_end t
+  else if (c =? 10)%N then match t with [] => Some [10%N] | _ => None end
+  else None.
+Proof.
+  destruct c as [|p]; [destruct t; reflexivity|].
+  do 7 (try destruct p as [p|p|]); try reflexivity; destruct t; reflexivity.
+Qed.
+
+Lemma zeros_to_end_digits F : all_d F = true -> zeros_to_end F = if all_zero F then Some [] else None.
+Proof.
+  induction F as [|c F IH]; intros H; [reflexivity|]. apply all_d_cons in H. destruct H as [Hc HF].
+  rewrite zeros_to_end_cons. unfold all_zero. cbn [forallb]. fold (all_zero F). apply is_d_range in Hc.
+  destruct (c =? 48)%N eqn:E; cbn [andb]; [apply IH; auto|]. replace (c =? 10)%N with false by lia. reflexivity.
+Qed.
+Lemma zeros_to_end_exp F r : all_d F = true -> zeros_to_end (F ++ 101%N :: r) = None.
+Proof.
+  induction F as [|c F IH]; intros H.
+  - cbn [app]. rewrite zeros_to_end_cons. reflexivity.
+  - apply all_d_cons in H. destruct H as [Hc HF]. cbn [app]. rewrite zeros_to_end_cons. apply is_d_range in Hc.
+    destruct (c =? 48)%N; [apply IH; auto|]. replace (c =? 10)%N with false by lia. reflexivity.
+Qed.
+
+Lemma cleanup_dot t : cleanup (46%N :: t) = match zeros_to_end t with Some tail => tail | None => 46%N :: cleanup t end.
+Proof. reflexivity. Qed.
+
+(* positional text: the fraction goes away exactly when it is all zeros; otherwise nothing changes *)
+Lemma cleanup_pos neg I F : all_d I = true -> all_d F = true ->
+  cleanup (sgn neg ++ I ++ 46%N :: F) = sgn neg ++ I ++ (if all_zero F then [] else 46%N :: F).
+Proof.
+  intros HI HF. rewrite cleanup_app by apply sgn_no_dot. rewrite cleanup_app by (apply all_d_no_dot; auto).
+  f_equal. f_equal. rewrite cleanup_dot. rewrite zeros_to_end_digits by auto.
+  destruct (all_zero F); [reflexivity|]. rewrite cleanup_no_dot by (apply all_d_no_dot; auto). reflexivity.
+Qed.
+
+(* exponent text: never changed *)
+Lemma is_sign_no_dot es : is_sign es = true -> negb (es =? 46)%N = true.
+Proof. unfold is_sign. lia. Qed.
+Lemma cleanup_exp neg d F es E : is_d d = true -> all_d F = true -> is_sign es = true -> all_d E = true ->
+  cleanup (sgn neg ++ d :: frac F ++ 101%N :: es :: E) = sgn neg ++ d :: frac F ++ 101%N :: es :: E.
+Proof.
+  intros Hd HF Hs HE. rewrite cleanup_app by apply sgn_no_dot. f_equal.
+  assert (Nd : negb (d =? 46)%N = true) by (apply is_d_range in Hd; lia).
+  assert (Tail : no_dot (101%N :: es :: E) = true).
+  { cbn. rewrite (is_sign_no_dot es Hs). apply (all_d_no_dot E HE). }
+  cbn [cleanup]. destruct (d =? 46)%N; [discriminate|]. f_equal.
+  destruct F as [|f F'].
+  - cbn [frac app]. apply cleanup_no_dot. exact Tail.
+  - change (frac (f :: F') ++ 101%N :: es :: E) with (46%N :: (f :: F') ++ 101%N :: es :: E).
+    rewrite cleanup_dot. rewrite zeros_to_end_exp by auto. f_equal. apply cleanup_no_dot.
+    rewrite no_dot_app. rewrite (all_d_no_dot _ HF). exact Tail.
+Qed.
+
+(* every text of the grammar *)
+Inductive Cleaned : str -> str -> Prop :=
+| CL_int neg I F : I <> [] -> all_d I = true -> F <> [] -> all_zero F = true -> Cleaned (sgn neg ++ I ++ 46%N :: F) (sgn neg ++ I)
+| CL_same s : ReprG s -> Cleaned s s.
+
+Theorem cleanup_grammar s : ReprG s -> Cleaned s (cleanup s).
+Proof.
+  intros H. inversion H as [neg I F HI DI HF DF E|neg d F es E Hd DF Hs DE HL Eq]; subst.
+  - rewrite cleanup_pos by auto. destruct (all_zero F) eqn:Z.
+    + rewrite app_nil_r. apply CL_int; auto.
+    + apply CL_same. exact H.
+  - rewrite cleanup_exp by auto. apply CL_same. exact H.
+Qed.
+
+(* ================================================================== E. what the texts denote *)
+(* -- strip is the identity on texts without white space *)
+Definition no_space (s : str) : bool := forallb (fun c => negb (U_space c)) s.
+Lemma no_space_app a b : no_space (a ++ b) = no_space a && no_space b.
+Proof. apply forallb_app. Qed.
+Lemma U_space_d c : is_d c = true -> U_space c = false.
+Proof.
+  intros H. apply is_d_range in H. unfold U_space. replace (c <? 128)%N with true by lia.
+  replace ((9 <=? c)%N && (c <=? 13)%N || (28 <=? c)%N && (c <=? 32)%N) with false by lia. reflexivity.
+Qed.
+Lemma all_d_no_space ds : all_d ds = true -> no_space ds = true.
+Proof.
+  unfold all_d, no_space. intros H. rewrite forallb_forall in *. intros c Hc. rewrite U_space_d; auto.
+Qed.
+Lemma sgn_no_space neg : no_space (sgn neg) = true.
+Proof. destruct neg; reflexivity. Qed.
+Lemma is_sign_no_space es : is_sign es = true -> U_space es = false.
+Proof. unfold is_sign. intros H. assert (es = 43%N \/ es = 45%N) as [->| ->] by lia; reflexivity. Qed.
+
+Lemma lstrip_no_space s : no_space s = true -> lstrip s = s.
+Proof. destruct s as [|c t]; [reflexivity|]. cbn. intros H. apply andb_true_iff in H. destruct H as [H _]. destruct (U_space c); [discriminate|reflexivity]. Qed.
+Lemma no_space_rev s : no_space (rev s) = no_space s.
+Proof.
+  unfold no_space. apply eq_true_iff_eq. rewrite !forallb_forall. split; intros H c Hc; apply H.
+  - apply (proj1 (in_rev s c)). exact Hc.
+  - apply (proj2 (in_rev s c)). exact Hc.
+Qed.
+Lemma strip_no_space s : no_space s = true -> strip s = s.
+Proof.
+  intros H. unfold strip, rstrip. rewrite (lstrip_no_space s H). rewrite lstrip_no_space by (rewrite no_space_rev; exact H).
+  apply rev_involutive.
+Qed.
+
+(* -- the three shapes *)
+Lemma lower_ascii_d d : is_d d = true -> lower_ascii d = d.
+Proof. intros H. apply is_d_range in H. unfold lower_ascii. replace ((65 <=? d)%N && (d <=? 90)%N) with false by lia. reflexivity. Qed.
+
+Lemma not_a_word d t : is_d d = true ->
+  str_eqb (map lower_ascii (d :: t)) (U "inf") || str_eqb (map lower_ascii (d :: t)) (U "infinity") = false /\
+  str_eqb (map lower_ascii (d :: t)) (U "nan") = false.
+Proof.
+  intros H. cbn [map]. rewrite (lower_ascii_d d H). apply is_d_range in H.
+  change (U "inf") with [105; 110; 102]%N. change (U "infinity") with [105; 110; 102; 105; 110; 105; 116; 121]%N.
+  change (U "nan") with [110; 97; 110]%N. cbn [str_eqb].
+  replace (d =? 105)%N with false by lia. replace (d =? 110)%N with false by lia. split; reflexivity.
+Qed.
+
+Lemma py_dec_body_pos I F : I <> [] -> all_d I = true -> all_d F = true ->
+  py_dec_body (I ++ 46%N :: F) = Some (PDec (dval I * 10 ^ len F + dval F) (- len F)).
+Proof.
+  intros HI DI DF. destruct I as [|d I']; [congruence|]. pose proof DI as DI'. apply all_d_cons in DI'. destruct DI' as [Hd _].
+  unfold py_dec_body. change ((d :: I') ++ 46%N :: F) with (d :: I' ++ 46%N :: F).
+  destruct (not_a_word d (I' ++ 46%N :: F) Hd) as [W1 W2]. rewrite W1, W2.
+  change (d :: I' ++ 46%N :: F) with ((d :: I') ++ 46%N :: F). rewrite scan_digits_app by auto.
+  cbv iota beta. rewrite <- (app_nil_r F) at 1. rewrite scan_digits_app by auto.
+  assert (L : 0 + len (d :: I') + (0 + len F) =? 0 = false) by (unfold len; cbn [length]; lia). rewrite L.
+  unfold dval. replace (0 + len F) with (len F) by lia. reflexivity.
+Qed.
+
+Lemma py_dec_body_int I : I <> [] -> all_d I = true ->
+  py_dec_body I = Some (PDec (dval I * 10 ^ 0 + 0) (- 0)).
+Proof.
+  intros HI DI. destruct I as [|d I']; [congruence|]. pose proof DI as DI'. apply all_d_cons in DI'. destruct DI' as [Hd _].
+  unfold py_dec_body. destruct (not_a_word d I' Hd) as [W1 W2]. rewrite W1, W2.
+  rewrite <- (app_nil_r (d :: I')) at 1. rewrite scan_digits_app by auto. cbv iota beta.
+  assert (L : 0 + len (d :: I') + 0 =? 0 = false) by (unfold len; cbn [length]; lia). rewrite L. reflexivity.
+Qed.
+
+Definition exp_val (es : N) (E : str) : Z := if (es =? 45)%N then - dval E else dval E.
+
+Lemma py_dec_body_exp d F es E : is_d d = true -> all_d F = true -> is_sign es = true -> all_d E = true -> E <> [] ->
+  py_dec_body (d :: frac F ++ 101%N :: es :: E) = Some (PDec (dval [d] * 10 ^ len F + dval F) (exp_val es E - len F)).
+Proof.
+  intros Hd DF Hs DE HE. unfold py_dec_body.
+  destruct (not_a_word d (frac F ++ 101%N :: es :: E) Hd) as [W1 W2]. rewrite W1, W2.
+  assert (D1 : all_d [d] = true) by (apply all_d_cons; split; auto).
+  assert (LE : 0 + len E =? 0 = false) by (unfold len; destruct E; [congruence|cbn [length]; lia]).
+  assert (Tail : forall nf mant,
+    (let '(eneg, t') := match es :: E with 45%N :: t' => (true, t') | 43%N :: t' => (false, t') | _ => (false, es :: E) end in
+     match scan_digits t' 0 0 false with
+     | Some (ev, ne, []) => if ne =? 0 then None else Some (PDec mant ((if eneg then - ev else ev) - nf))
+     | _ => None
+     end) = Some (PDec mant (exp_val es E - nf))).
+  { intros nf mant. unfold exp_val, is_sign in *.
+    assert (es = 43%N \/ es = 45%N) as [->| ->] by lia; cbv iota beta; cbn [N.eqb Pos.eqb];
+      rewrite <- (app_nil_r E) at 1; rewrite scan_digits_app by auto; rewrite LE; reflexivity. }
+  destruct F as [|f F'].
+  - cbn [frac app]. change (d :: 101%N :: es :: E) with ([d] ++ 101%N :: es :: E). rewrite scan_digits_app by auto.
+    cbv iota beta. assert (L : 0 + len [d] + 0 =? 0 = false) by reflexivity. rewrite L.
+    change (lower_ascii 101 =? 101)%N with true. cbv iota. rewrite Tail. unfold len; cbn [length]. reflexivity.
+  - change (d :: frac (f :: F') ++ 101%N :: es :: E) with ([d] ++ 46%N :: (f :: F') ++ 101%N :: es :: E).
+    rewrite scan_digits_app by auto. cbv iota beta. rewrite scan_digits_app by auto.
+    assert (L : 0 + len [d] + (0 + len (f :: F')) =? 0 = false) by (unfold len; cbn [length]; lia). rewrite L.
+    change (lower_ascii 101 =? 101)%N with true. cbv iota. rewrite Tail. unfold dval. replace (0 + len (f :: F')) with (len (f :: F')) by lia.
+    reflexivity.
+Qed.
+
+Lemma py_dec_sgn neg d t : is_d d = true -> no_space (d :: t) = true ->
+  py_dec (sgn neg ++ d :: t) = option_map (pair neg) (py_dec_body (d :: t)).
+Proof.
+  intros Hd NS. unfold py_dec. rewrite strip_no_space by (rewrite no_space_app, sgn_no_space; exact NS).
+  rewrite sign_match. destruct neg; cbn [sgn app].
+  - reflexivity.
+  - apply is_d_range in Hd. replace (d =? 45)%N with false by lia. replace (d =? 43)%N with false by lia. reflexivity.
+Qed.
+
+(* -- py_dec on every text of the grammar, and on its cleaned form *)
+Lemma no_space_pos I F : all_d I = true -> all_d F = true -> no_space (I ++ 46%N :: F) = true.
+Proof. intros. rewrite no_space_app, (all_d_no_space I) by auto. cbn. apply (all_d_no_space F); auto. Qed.
+Lemma no_space_exp d F es E : is_d d = true -> all_d F = true -> is_sign es = true -> all_d E = true ->
+  no_space (d :: frac F ++ 101%N :: es :: E) = true.
+Proof.
+  intros Hd DF Hs DE. change (d :: frac F ++ 101%N :: es :: E) with ([d] ++ frac F ++ [101%N; es] ++ E).
+  rewrite !no_space_app. rewrite (all_d_no_space E DE). cbn. rewrite (U_space_d d Hd), (is_sign_no_space es Hs). cbn.
+  destruct F; [reflexivity|]. cbn [frac]. change (46%N :: n :: F) with ([46%N] ++ n :: F). rewrite no_space_app, (all_d_no_space _ DF). reflexivity.
+Qed.
+
+Theorem py_dec_pos neg I F : I <> [] -> all_d I = true -> all_d F = true ->
+  py_dec (sgn neg ++ I ++ 46%N :: F) = Some (neg, PDec (dval I * 10 ^ len F + dval F) (- len F)).
+Proof.
+  intros HI DI DF. pose proof (py_dec_body_pos I F HI DI DF) as B. pose proof (no_space_pos I F DI DF) as NS.
+  destruct I as [|d I']; [congruence|]. apply all_d_cons in DI. destruct DI as [Hd _].
+  change ((d :: I') ++ 46%N :: F) with (d :: I' ++ 46%N :: F) in *. rewrite py_dec_sgn by auto. rewrite B. reflexivity.
+Qed.
+Theorem py_dec_int neg I : I <> [] -> all_d I = true ->
+  py_dec (sgn neg ++ I) = Some (neg, PDec (dval I * 10 ^ 0 + 0) (- 0)).
+Proof.
+  intros HI DI. pose proof (py_dec_body_int I HI DI) as B. pose proof (all_d_no_space I DI) as NS.
+  destruct I as [|d I']; [congruence|]. apply all_d_cons in DI. destruct DI as [Hd _].
+  rewrite py_dec_sgn by auto. rewrite B. reflexivity.
+Qed.
+Theorem py_dec_exp neg d F es E : is_d d = true -> all_d F = true -> is_sign es = true -> all_d E = true -> E <> [] ->
+  py_dec (sgn neg ++ d :: frac F ++ 101%N :: es :: E) = Some (neg, PDec (dval [d] * 10 ^ len F + dval F) (exp_val es E - len F)).
+Proof.
+  intros Hd DF Hs DE HE. rewrite py_dec_sgn by (auto; apply no_space_exp; auto). rewrite py_dec_body_exp by auto. reflexivity.
+Qed.
+
+(* the same rational number: m * 10^e = m' * 10^e' *)
+Definition same_value (m e m' e' : Z) : Prop :=
+  m * 10 ^ (e - Z.min e e') = m' * 10 ^ (e' - Z.min e e').
+
+(* cleanup keeps sign and value, and the result is a decimal float() accepts *)
+Theorem cleanup_value s : ReprG s ->
+  exists neg m e m' e', py_dec s = Some (neg, PDec m e) /\ py_dec (cleanup s) = Some (neg, PDec m' e') /\
+                        same_value m e m' e' /\ exists k, 0 <= k /\ m = m' * 10 ^ k /\ e = e' - k.
+Proof.
+  intros H. inversion H as [neg I F HI DI HF DF Eq|neg d F es E Hd DF Hs DE HL Eq]; subst.
+  - rewrite cleanup_pos by auto. destruct (all_zero F) eqn:Z.
+    + rewrite app_nil_r. exists neg, (dval I * 10 ^ len F + dval F), (- len F), (dval I * 10 ^ 0 + 0), (- 0).
+      rewrite py_dec_pos, py_dec_int by auto. rewrite (dval_all_zero F Z).
+      assert (L : 0 <= len F) by (unfold len; lia).
+      repeat split; auto.
+      * unfold same_value. rewrite Z.min_l by lia. replace (- len F - - len F) with 0 by lia.
+        replace (- 0 - - len F) with (len F) by lia. rewrite Z.pow_0_r. lia.
+      * exists (len F). rewrite Z.pow_0_r. repeat split; lia.
+    + exists neg, (dval I * 10 ^ len F + dval F), (- len F), (dval I * 10 ^ len F + dval F), (- len F).
+      rewrite py_dec_pos by auto. repeat split; auto. exists 0. rewrite Z.pow_0_r. repeat split; lia.
+  - rewrite cleanup_exp by auto.
+    assert (HE : E <> []) by (destruct E; [cbn in HL; lia|discriminate]).
+    exists neg, (dval [d] * 10 ^ len F + dval F), (exp_val es E - len F), (dval [d] * 10 ^ len F + dval F), (exp_val es E - len F).
+    rewrite py_dec_exp by auto. repeat split; auto. exists 0. rewrite Z.pow_0_r. repeat split; lia.
+Qed.
+
+(* integral value in positional form <-> no '.' after cleanup *)
+Definition positional (s : str) : bool := negb (existsb (fun c => (c =? 101)%N) s).
+
+Lemma existsb_e_digits ds : all_d ds = true -> existsb (fun c => (c =? 101)%N) ds = false.
+Proof.
+  unfold all_d. induction ds as [|c ds IH]; intros H; [reflexivity|]. cbn in H. apply andb_true_iff in H. destruct H as [Hc Hd].
+  cbn. rewrite IH by auto. apply is_d_range in Hc. replace (c =? 101)%N with false by lia. reflexivity.
+Qed.
+
+Lemma has_e a b : existsb (fun c => (c =? 101)%N) (a ++ 101%N :: b) = true.
+Proof. induction a as [|c a IH]; cbn; [reflexivity|]. rewrite IH. apply orb_true_r. Qed.
+
+Theorem integral_no_dot s : ReprG s -> positional s = true ->
+  exists neg m e, py_dec s = Some (neg, PDec m e) /\ e <= 0 /\
+    (m mod 10 ^ (- e) = 0 -> no_dot (cleanup s) = true /\ all_d (skipn (if neg then 1 else 0) (cleanup s)) = true) /\
+    (m mod 10 ^ (- e) <> 0 -> cleanup s = s).
+Proof.
+  intros H P. inversion H as [neg I F HI DI HF DF Eq|neg d F es E Hd DF Hs DE HL Eq]; subst.
+  - exists neg, (dval I * 10 ^ len F + dval F), (- len F). rewrite py_dec_pos by auto.
+    assert (L : 0 <= len F) by (unfold len; lia). split; [reflexivity|]. split; [lia|].
+    pose proof (dval_bounds F DF) as B. replace (- - len F) with (len F) by lia.
+    assert (P10 : 0 < 10 ^ len F) by (apply Z.pow_pos_nonneg; lia).
+    assert (M : (dval I * 10 ^ len F + dval F) mod 10 ^ len F = dval F).
+    { rewrite Z.add_comm, Z.mod_add by lia. apply Z.mod_small. lia. }
+    rewrite M. rewrite cleanup_pos by auto. split.
+    + intros Z0. rewrite (dval_zero_all_zero F DF Z0). rewrite app_nil_r. split.
+      * rewrite no_dot_app, sgn_no_dot. apply all_d_no_dot; auto.
+      * destruct neg; cbn; exact DI.
+    + intros NZ. destruct (all_zero F) eqn:Z; [|reflexivity]. rewrite (dval_all_zero F Z) in NZ. congruence.
+  - exfalso. assert (X : sgn neg ++ d :: frac F ++ 101%N :: es :: E = (sgn neg ++ d :: frac F) ++ 101%N :: es :: E)
+      by (rewrite <- app_assoc; reflexivity).
+    rewrite X in P. unfold positional in P. rewrite has_e in P. discriminate.
+Qed.
